@@ -213,20 +213,38 @@ def pfield(rec, *path):
 
 
 class ViewStandin:
-    """stands for data_view (memoryview over data_buffer): records the slice the manager forwards"""
+    """stands for data_view (memoryview over data_buffer): records the slice the manager forwards.  A slice remembers the
+    manager it was cut from, so that `Shadow.from_buffer(slice)` behaves like ctypes on a memoryview slice: ValueError when the
+    slice is shorter than the structure, otherwise the structure found at that offset of the receive buffer."""
+
+    def __init__(self, mm=None):
+        self.mm = mm
 
     def __getitem__(self, sl):
         assert isinstance(sl, slice)
-        return PayloadSlice(sl.start, sl.stop)
+        return PayloadSlice(sl.start, sl.stop, self.mm)
+
+    def __len__(self):
+        return 1024 ** 2
 
 
 class PayloadSlice:
-    def __init__(self, start, stop):
+    def __init__(self, start, stop, mm=None):
         self.start = start
         self.stop = stop
+        self.mm = mm
 
     def __len__(self):
         return self.stop - (self.start or 0)
+
+    def shadow_from_buffer(self, c):
+        """ctypes' from_buffer contract on a writable buffer slice"""
+        need = ctypes.sizeof(c._real)
+        if len(self) < need:
+            raise ValueError("Buffer size too small (%s instead of at least %d bytes)" % ("<sym>", need))
+        if (self.start or 0) != 0 or self.mm is None:
+            raise TypeError("shadow from_buffer: a slice that does not start at the beginning of the receive buffer is not modelled")
+        return self.mm.data_buffer.materialise(c)
 
 
 def build(n, timecode=False, send_timing=True):
@@ -303,7 +321,7 @@ def _build(n, timecode, send_timing):
         mm.header_buffer = None
         mm.header_view = H()
         mm.data_buffer = SH.PayloadBuf()
-        mm.data_view = ViewStandin()
+        mm.data_view = ViewStandin(mm)
     else:
         mm.logger_modules = set()
         mm.subscriptions = defaultdict(set)
